@@ -571,6 +571,55 @@ Definition tcp_server_gen (fx fq eq : bool) (x : xreq) (idle_ms : option N) (svc
     end.
 Definition tcp_server := tcp_server_gen trunc_no_opt_is_min trunc_questions_limited err_resp_first_question_only.
 
+(* ---- connection.rs IdleTimer, stream.rs connection limit ---------------------- *)
+
+(* times in ms since the connection started; the timer is reset when a complete
+   message has been received and when the response queue has been emptied *)
+Definition idle_expired (reset_at timeout now : N) : bool :=
+  if idle_expired_cmp_is_le then reset_at + timeout <=? now else reset_at + timeout <? now.
+
+(* a connection left alone from `reset_at` on: open at time `now`? (the loop
+   sleeps until the deadline and then disconnects) *)
+Definition idle_open (reset_at timeout now : N) : bool := negb (idle_expired reset_at timeout now).
+
+Definition at_connection_limit (num max : N) : bool :=
+  if conn_limit_cmp_is_ge then max <=? num else max <? num.
+
+(* k connections opened one after the other and kept open: which are served
+   (accept_connections_at_max = true: the others are accepted and dropped) *)
+Fixpoint served_connections (max : N) (num : N) (k : nat) : list bool :=
+  match k with
+  | O => []
+  | S k' => if at_connection_limit num max then false :: served_connections max num k'
+            else true :: served_connections max (num + 1) k'
+  end.
+
+(* ---- cookies.rs preprocess: the two answers the middleware makes itself without
+   looking at the request's question (the others start from start_answer) ------- *)
+Inductive cookie_reject :=
+| CkMalformed          (* the COOKIE option does not parse: FORMERR *)
+| CkDeniedNoCookie.    (* UDP, no cookie, client address on the deny list: REFUSED with TC *)
+
+(* echo = false: an empty builder (id 0, no question) with the rcode set;
+   echo = true: mk_error_response(request, rcode) *)
+Definition cookie_own_answer_gen (echo eq : bool) (rq : request) (k : cookie_reject) : msg :=
+  let rc := match k with CkMalformed => rc_formerr | CkDeniedNoCookie => rc_refused end in
+  let m := if echo then error_response_gen eq rq rc else mkMsg 0 0 rc [] [] [] [] in
+  match k with
+  | CkDeniedNoCookie => mkMsg (m_id m) (set_tc (m_b2 m)) (m_b3 m) (m_qs m) (m_an m) (m_ns m) (m_ar m)
+  | CkMalformed => m
+  end.
+
+(* ... as sent: the cookies middleware sits inside Edns (hint negotiated) and Mandatory *)
+Definition cookie_reject_response_gen (fx fq eq echo : bool) (rq : request) (cfg : option N) (k : cookie_reject)
+  : outcome msg :=
+  do h <- hint_after_edns (rq_client rq) cfg;
+  Ok (mandatory_post_gen fx fq eq true rq h
+        (edns_post (is_some (rq_client rq)) (cookie_own_answer_gen echo eq rq k))).
+Definition cookie_reject_response :=
+  cookie_reject_response_gen trunc_no_opt_is_min trunc_questions_limited err_resp_first_question_only
+    cookie_reject_echoes_question.
+
 (* ---- dgram.rs receive: the message handed on is the whole receive buffer ---- *)
 
 (* DgramServer::recv_from reads into BufSource::create_buf() (VecBufSource: 1024
@@ -637,6 +686,14 @@ Definition c16_pad (d : bytes) (cfg : option N) :=
       do r <- udp_server x cfg (SvcOk (mk_response (x_base x) rb2 0 1 15 0 11 None));
       Ok (match r with Some m => Some (observe2 m) | None => None end)
   end.
+
+Definition c16_idle (timeout wait : N) : bool := idle_open 0 timeout wait.
+Definition c16_limit (max : N) (k : N) : list bool := served_connections max 0 (N.to_nat k).
+
+Definition c16_ck (id b2 : N) (labels : list N) (qtype : N) (client cfg : option N) (denied : bool) :=
+  do m <- cookie_reject_response (mk_request id b2 labels qtype client) cfg
+            (if denied then CkDeniedNoCookie else CkMalformed);
+  Ok (Some (observe2 m)).
 
 Definition observe3 (m : msg) :=
   (observe2 m, match first_opt (m_ar m) with Some o => len (o_data o) | None => 0 end).
